@@ -504,6 +504,8 @@ pub fn contexts() -> Vec<Context> {
         // conditional that takes its (empty) no-branch, followed by something that fails
         ("(?>(?>□)□'?(?(b)b|))□'", cat(vec![atomic(cat(vec![atomic(h0()), opt(h1()), cond(y(), y(), Node::Empty)])), h1()])),
         ("(?>(?=(?=)□)□'?(?(b)b|))□'", cat(vec![atomic(cat(vec![la(cat(vec![e(), h0()])), opt(h1()), cond(y(), y(), Node::Empty)])), h1()])),
+        // two look-aheads inside a look-behind (nested save/restore of the position)
+        ("(?<=(?=□)(?=□')□)", lb(cat(vec![la(h0()), la(h1()), h0()]))),
         // atomic / possessive
         ("(?>□)", atomic(h0())),
         ("(?>□)□'", cat(vec![atomic(h0()), h1()])),
